@@ -196,6 +196,9 @@ pub enum Prog {
     XcpNoLinux,
     ApiProbe,
     Toy,
+    /// xcp built with opt-level 1 (atomics inlined into xcp's own functions) and run with a decision point before
+    /// every atomic read-modify-write instruction of its own code
+    XcpAtomic,
 }
 
 #[derive(Clone, Copy, Debug, Serialize, Deserialize, PartialEq)]
@@ -242,12 +245,15 @@ pub struct Bins {
     pub xcp_nolinux: String,
     pub apiprobe: String,
     pub toy: String,
+    pub xcp_o1: String,
+    pub o1_breakpoints: Vec<u64>,
 }
 
 impl Bins {
     pub fn from_env() -> Bins {
         let g = |k: &str| std::env::var(k).unwrap_or_default();
-        Bins { xcp: g("XV_XCP"), xcp_nolinux: g("XV_XCP_NOLINUX"), apiprobe: g("XV_APIPROBE"), toy: g("XV_TOY") }
+        let bps: Vec<u64> = std::fs::read_to_string(g("XV_XCP_O1_BPS")).unwrap_or_default().lines().filter_map(|l| u64::from_str_radix(l.trim(), 16).ok()).collect();
+        Bins { xcp: g("XV_XCP"), xcp_nolinux: g("XV_XCP_NOLINUX"), apiprobe: g("XV_APIPROBE"), toy: g("XV_TOY"), xcp_o1: g("XV_XCP_O1"), o1_breakpoints: bps }
     }
     pub fn path(&self, p: Prog) -> &str {
         match p {
@@ -255,6 +261,7 @@ impl Bins {
             Prog::XcpNoLinux => &self.xcp_nolinux,
             Prog::ApiProbe => &self.apiprobe,
             Prog::Toy => &self.toy,
+            Prog::XcpAtomic => &self.xcp_o1,
         }
     }
 }
@@ -340,6 +347,7 @@ impl Worker {
             stderr_path: format!("{}/out/stderr", self.base_ext4),
             slot: self.id,
             run_as: s.run_as,
+            breakpoints: if s.prog == Prog::XcpAtomic { self.bins.o1_breakpoints.clone() } else { vec![] },
         }
     }
     /// build the sandbox and execute under the supervisor
